@@ -391,9 +391,11 @@ class Particle(BaseParticle, AmpBase):
 
     def is_fixed_shape(self):
         for k, v in self.__dict__.items():
-            if isinstance(v, Variable):
-                if not v.is_fixed():
-                    return False
+            # parameters are attributes or lists of them (e.g. Flatte couplings)
+            for vi in v if isinstance(v, (list, tuple)) else [v]:
+                if isinstance(vi, Variable):
+                    if not vi.is_fixed():
+                        return False
         return True
 
     def get_amp(self, data, data_c, **kwargs):
